@@ -26,6 +26,10 @@ def run(ctx):
     # requested: kept when the volume is omitted, the requested value otherwise (C06's per-case rules on modify_order)
     from .c06 import modify_rules, _Prefixed
     modify_rules(_Prefixed(ctx, "conservation-modify-"), m, with_typestate=False)
+    # "whose limits both admit the trade price": a fill happens only inside a matching loop whose condition tests the aggressor's
+    # limit against the CURRENT best price of the passive side (the passive order is the head at that price: K5 / call sites)
+    from .c01 import matching_loop_rules
+    matching_loop_rules(ctx, m, RULE="limits-admit")
 
 
 def fill_rules(ctx, m, census=False):
@@ -152,6 +156,39 @@ def record_rules(ctx, m, twf, q, push):
               "trade writer returns %s, not the logged volume" % render(q.ret()))
 
     return (twf, q, push, pas, agg, tparam, delta)
+
+
+def record_time_rules(ctx, m, rule="record-time"):
+    """every trade is stamped with the book clock at execution: the trade writer's time parameter receives self.<clock> at every
+    call context, and the record's time field is that parameter"""
+    tw = m.trade_writers()
+    if len(tw) != 1:
+        ctx.lost(rule, "exactly one trade writer expected, found %d" % len(tw))
+        return
+    twf, push = tw[0]
+    q = m.q(twf)
+    rec = push.args[1] if len(push.args) > 1 else None
+    tfield = None
+    if rec is not None and rec[0] == "agg" and rec[2].endswith("Trade::Trade"):
+        tfield = dict(zip(rec[4], rec[3])).get("t")
+    ok = tfield is not None and tfield[0] == "param"
+    ctx.check(ok, rule, "field", push.loc(), "Trade.t <- the trade writer's time parameter", "Trade.t is %s, not a time parameter handed in by the matching loop" % (render(tfield) if tfield is not None else "?"))
+    if not ok:
+        return
+    tname = tfield[2]
+    n = 0
+    for f in [f_ for f_ in m.book_pub_fns() if f_.params and f_.params[0] == "self"]:
+        for S_ in ("Bid", "Ask"):
+            fq = m.sv(f, S_)
+            live = fq.cfg.reach_from(0)
+            for c in fq.calls(twf.name):
+                if c.target is None or c.target.path != twf.path or c.b not in live:
+                    continue
+                n += 1
+                a_t = c.arg_named(tname)
+                ctx.check(a_t is not None and fld(a_t, m.f_clock) and field_chain(a_t)[0] == ("param", 1, "self"), rule, "arg|" + fq.fn.short(), c.loc(),
+                          "trade time argument <- self.%s (book clock at execution)" % m.f_clock, "trade time argument is %s, not the book clock" % (render(a_t) if a_t else "?"))
+    ctx.check(n >= 2, rule, "census", "-", "%d trade-writer call contexts" % n)
 
 
 def ledger_rules(ctx, m, twf, q, push, pas, agg, tparam, delta):
